@@ -1,8 +1,17 @@
-"""C05 translator: opcode numbers of the three global-call opcodes, the VM limits the call cache
-model uses, and the source shapes the model's `step` is written against
-(set_global* clear the call-site cache; the serializer resets 78->77 and zeroes both cache
-words; the REPL compiler constructor starts the slot counter at 0; the 78 fast path does not
-compare against the current global).  Regenerated from the Rust text on every run."""
+"""C05 translator.  Regenerated from the Rust text on every run, structurally (opcode arms are found by
+their number in the dispatch `match`, `include!`s are followed, guards are found as the conditions of the
+blocks that enclose a use, local names are resolved or matched by back-reference -- no identifier of a
+local variable and no layout of the text is relied on):
+
+  * opcode numbers of the three global-call opcodes, MAX_FRAMES, MAX_CALL_SITE_SLOTS
+  * THE ACCESS TABLE of the VM-wide call_site_cache: which opcode arms read it, which write it, which
+    functions clear it, and whether anything else touches it (CACHE_READ_OPS / CACHE_WRITE_OPS /
+    CACHE_CLEARED_BY / CACHE_OTHER_ACCESSES); which opcode arms patch a call site to which opcode (PATCHES)
+  * the guard of the 78 fast path: the entry read from the cache is used for a frame only under
+    `entry.owner == <cache word>` and `globals_by_index[idx].as_ptr() == Some(<cache word>)`
+  * every cache fill records `owner`
+  * the 104 arm rewrites the site to 77 and dispatches it again
+  * the serializer resets 78 -> 77 and zeroes both cache words; the REPL compiler starts slot ids at 0"""
 import re
 import extract
 from extract import ExtractError, rd, strip_comments, write_if_changed, HEADER, consts_of
@@ -50,75 +59,210 @@ def b(x):
     return "true" if x else "false"
 
 
+
+def match_arms(text):
+    """top-level arms `<pattern> => {` of the first `match` whose arms are opcode numbers: [(numbers, body)]"""
+    arms = []
+    for m in re.finditer(r"(?m)^\s*((?:\d+(?:\s*\.\.=\s*\d+)?\s*\|?\s*)+)=>\s*\{", text):
+        nums = []
+        for part in m.group(1).split("|"):
+            part = part.strip()
+            if not part:
+                continue
+            mm = re.fullmatch(r"(\d+)\s*\.\.=\s*(\d+)", part)
+            if mm:
+                nums.extend(range(int(mm.group(1)), int(mm.group(2)) + 1))
+            elif part.isdigit():
+                nums.append(int(part))
+        i = m.end() - 1
+        depth, j = 0, i
+        while j < len(text):
+            if text[j] == "{":
+                depth += 1
+            elif text[j] == "}":
+                depth -= 1
+                if depth == 0:
+                    break
+            j += 1
+        arms.append((nums, text[i:j + 1], m.start()))
+    return arms
+
+
+def inline_includes(text, base):
+    def sub(m):
+        try:
+            return "\n" + inline_includes(strip_comments(rd(base + m.group(1))), base) + "\n"
+        except Exception:
+            return m.group(0)
+    return re.sub(r'include!\(\s*"([^"]+)"\s*\)\s*;?', sub, text)
+
+
+def guards_chain(text, at):
+    """conditions of all `if` blocks enclosing position `at` (innermost first)"""
+    conds, depth, j = [], 0, at
+    while j > 0:
+        j -= 1
+        c = text[j]
+        if c == "}":
+            depth += 1
+        elif c == "{":
+            if depth == 0:
+                k = j
+                while k > 0 and text[k - 1] not in ";{}":
+                    k -= 1
+                head = text[k:j].strip()
+                m = re.match(r"(?:else\s+)?if\s+(.*)$", head, flags=re.S)
+                if m and not m.group(1).lstrip().startswith("let "):
+                    conds.append(re.sub(r"\s+", "", m.group(1)))
+            else:
+                depth -= 1
+    return conds
+
+
+READ_RE = re.compile(r"call_site_cache\s*\.\s*(?:get_unchecked|get)\s*\(|=\s*\*?\s*&?\s*self\s*\.\s*call_site_cache\s*\[")
+WRITE_RE = re.compile(r"call_site_cache\s*\[[^\]]*\]\s*=[^=]|call_site_cache\s*\.\s*(?:push|insert)\s*\(")
+CLEAR_RE = re.compile(r"call_site_cache\s*(?:\.\s*clear\s*\(\s*\)|\.\s*truncate\s*\(\s*0\s*\)|=\s*Vec::new\s*\(\s*\))")
+
+
+def coq_nlist(xs):
+    return "[" + "; ".join(f"{x}%N" for x in xs) + "]"
+
+
 @extract.register("CallCacheConsts")
 def gen_callcache_consts():
+    import os
     ops = enum_values(rd("bytecode/src/bytecode/opcode.rs"), "OpCode")
     for n in ("CallGlobal", "CallGlobalMono", "CallGlobalNative"):
         if n not in ops:
             raise ExtractError(f"opcode {n} missing")
+    O77, O78, O104 = ops["CallGlobal"], ops["CallGlobalMono"], ops["CallGlobalNative"]
     lim = consts_of(rd("runtime/src/vm/core.rs"), ["MAX_FRAMES", "MAX_CALL_SITE_SLOTS"])
-    # dispatch: the three .inc bodies are selected by these literal opcode numbers
-    run_rs = strip_comments(rd("runtime/src/vm/dispatch/run.rs"))
-    calls = strip_comments(rd("runtime/src/vm/dispatch/ops/calls.inc"))
-    disp = run_rs + calls
-    for n in ("CallGlobal", "CallGlobalMono", "CallGlobalNative"):
-        if not re.search(r"\b%d\b" % ops[n], disp):
-            raise ExtractError(f"dispatch does not mention opcode number {ops[n]} ({n})")
-    # patching literals inside the slow path: `(78 << 24)` and `(104 << 24)`
-    cg = strip_comments(rd("runtime/src/vm/dispatch/ops/call_global.inc"))
-    patch_mono = re.findall(r"\|\s*\((\d+)\s*<<\s*24\)", cg)
-    if sorted(set(int(x) for x in patch_mono)) != sorted({ops["CallGlobalMono"], ops["CallGlobalNative"]}):
-        raise ExtractError(f"call_global.inc patches to opcodes {patch_mono}, expected Mono and Native")
-    # invalidation: both setters clear the call-site cache
-    acc = strip_comments(rd("runtime/src/vm/globals/access.rs"))
-    clear_re = re.compile(r"self\s*\.\s*call_site_cache\s*(\.\s*clear\s*\(\s*\)|\.\s*truncate\s*\(\s*0\s*\)|=\s*Vec::new\s*\(\s*\))")
-    clears = all(clear_re.search(fn_body(acc, f)) is not None for f in ("set_global", "set_global_by_index"))
-    # fast path: 78 uses call_site_cache[slot] only when the entry was built from the callee cached at the
-    # site (`owner`) and the global still denotes that callee -- both checks before the entry is used
-    mono = strip_comments(rd("runtime/src/vm/dispatch/ops/call_global_mono.inc"))
-    hit = mono.find("call_site_cache.get_unchecked")
-    use = mono.find("let callee_ref_tmp")
-    if hit < 0 or use < 0 or "self.globals_by_index[idx]" not in mono:
-        raise ExtractError("call_global_mono.inc: fast path / miss path shape not recognised")
-    guard = mono[hit:use]
-    validates = (re.search(r"cached\s*\.\s*owner\s*==\s*cached_func_ptr", guard) is not None
-                 and re.search(r"self\s*\.\s*globals_by_index\s*\[\s*idx\s*\]\s*\.\s*as_ptr\(\)\s*==\s*Some\(\s*cached_func_ptr\s*\)", guard) is not None)
-    fills = len(re.findall(r"owner\s*:\s*(current_func_ptr|new_func_ptr)", cg + mono))
-    if validates and fills != 4:
-        raise ExtractError(f"expected the 4 cache fills to record `owner`, found {fills}")
-    # 104: a site whose global no longer denotes the cached native rewrites itself to CallGlobal and is re-dispatched
-    m104 = re.search(r"\b%d\s*=>\s*\{" % ops["CallGlobalNative"], calls)
-    if not m104:
-        raise ExtractError("calls.inc: arm of CallGlobalNative not found")
-    arm = calls[m104.end():]
-    native_follows = (re.search(r"\|\s*\(%d\s*<<\s*24\)" % ops["CallGlobal"], arm) is not None
-                      and re.search(r"ip\s*-=\s*1\s*;\s*continue\s*;", arm) is not None
-                      and "p != native_ptr" in arm)
-    # serializer
+    base = "runtime/src/vm/dispatch/ops/"
+    calls = inline_includes(strip_comments(rd(base + "calls.inc")), base)
+    arms = {}
+    for nums, body, _ in match_arms(calls):
+        for n in nums:
+            arms.setdefault(n, body)
+    for n, nm in ((O77, "CallGlobal"), (O78, "CallGlobalMono"), (O104, "CallGlobalNative")):
+        if n not in arms:
+            raise ExtractError(f"dispatch: no arm for opcode {n} ({nm}) in calls.inc")
+    # ---- the access table of call_site_cache
+    read_ops = sorted(n for n, bd in arms.items() if READ_RE.search(bd))
+    write_ops = sorted(n for n, bd in arms.items() if WRITE_RE.search(bd))
+    # every other mention in the runtime: which functions clear / write / read it
+    clearers, others = [], []
+    files = []
+    for dp, dn, fn in os.walk(os.path.join(extract.REPO, "runtime", "src")):
+        for f in fn:
+            if f.endswith(".rs") or f.endswith(".inc"):
+                files.append(os.path.join(dp, f))
+    for path in sorted(files):
+        rel = path.split("/runtime/src/", 1)[1]
+        if rel.startswith("verif") or "/dispatch/ops/" in "/" + rel:
+            continue
+        try:
+            txt = strip_comments(open(path).read())
+        except Exception:
+            continue
+        if "call_site_cache" not in txt:
+            continue
+        # cfg(verif)-guarded hook lines are not part of the protocol
+        txt = re.sub(r"#\[cfg\(vbxq_aelys_lang_verif\)\][^;{]*(?:;|\{[^{}]*\})", "", txt)
+        for m in re.finditer(r"\bfn\s+(\w+)", txt):
+            try:
+                bd = fn_body(txt[m.start():], m.group(1))
+            except ExtractError:
+                continue
+            if "call_site_cache" not in bd:
+                continue
+            if CLEAR_RE.search(bd):
+                clearers.append(m.group(1))
+            if WRITE_RE.search(bd) or READ_RE.search(bd):
+                others.append(f"{rel}:{m.group(1)}")
+    clearers = sorted(set(clearers))
+    clears = "set_global" in clearers and "set_global_by_index" in clearers
+    # ---- which arm patches a site to which opcode: `| (N << 24)`
+    patches = {}
+    for n in (O77, O78, O104):
+        patches[n] = sorted(set(int(x) for x in re.findall(r"\|\s*\(\s*(\d+)\s*<<\s*24\s*\)", arms[n])))
+    if not ({O78, O104} <= set(patches[O77])):
+        raise ExtractError(f"the CallGlobal arm patches to opcodes {patches[O77]}, expected Mono and Native among them")
+    # ---- 78: the entry read from the cache is used only under owner == word && current global == Some(word)
+    mono = arms[O78]
+    validates, n_reads = True, 0
+    for m in READ_RE.finditer(mono):
+        n_reads += 1
+        # name the entry is bound to
+        k = mono.rfind("let", 0, m.start())
+        mm = re.match(r"let\s+(?:mut\s+)?(\w+)\b", mono[k:]) if k >= 0 else None
+        if not mm:
+            validates = False
+            continue
+        e = mm.group(1)
+        # every frame construction that uses the entry's code pointers
+        uses = [u.start() for u in re.finditer(r"CallFrame\s*::\s*\w+\s*\(", mono[m.end():]) if re.search(r"\b" + e + r"\s*\.\s*bytecode_ptr", mono[m.end() + u.start():m.end() + u.start() + 600])]
+        if not uses:
+            validates = False
+        for u in uses:
+            conds = "&&".join(guards_chain(mono, m.end() + u))
+            ow = re.search(r"\b" + e + r"\.owner==(\w+)|(\w+)==" + e + r"\.owner\b", conds)
+            if not ow:
+                validates = False
+                continue
+            w = ow.group(1) or ow.group(2)
+            cur = re.search(r"self\.globals_by_index\[\w+\]\.as_ptr\(\)==Some\(" + w + r"\)|Some\(" + w + r"\)==self\.globals_by_index\[\w+\]\.as_ptr\(\)", conds)
+            if not cur:
+                validates = False
+    if n_reads == 0:
+        raise ExtractError("the CallGlobalMono arm does not read call_site_cache any more; Model/CallCache.v is out of date")
+    # ---- every fill records its owner
+    fills = re.findall(r"call_site_cache\s*\[[^\]]*\]\s*=\s*[\w:]*CallSiteCacheEntry\s*\{([^{}]*)\}", arms[O77] + arms[O78])
+    fills_owner = bool(fills) and all(re.search(r"\bowner\s*:", f) or re.search(r"\bowner\s*,", f) for f in fills)
+    if validates and not fills_owner:
+        raise ExtractError("a cache fill does not record `owner` although the fast path compares it")
+    # ---- 104: rewrites itself to CallGlobal and is dispatched again
+    a104 = arms[O104]
+    native_follows = False
+    for m in re.finditer(r"\|\s*\(\s*%d\s*<<\s*24\s*\)" % O77, a104):
+        tail = a104[m.end():m.end() + 400]
+        if re.search(r"ip\s*-=\s*1\s*;\s*continue\s*;", tail):
+            conds = guards_chain(a104, m.start())
+            native_follows = len(conds) > 0
+    # ---- serializer
     ser = fn_body(strip_comments(rd("bytecode/src/asm/binary.rs")), "write_function")
-    ser_ok = (re.search(r"opcode\s*==\s*%d" % ops["CallGlobalMono"], ser) is not None
-              and re.search(r"\|\s*\(%d\s*<<\s*24\)" % ops["CallGlobal"], ser) is not None
-              and "skip_cache_words = 2" in ser and "self.write_u32(0)" in ser)
+    ser_ok = (re.search(r"==\s*%d\b" % O78, ser) is not None
+              and re.search(r"\|\s*\(\s*%d\s*<<\s*24\s*\)" % O77, ser) is not None
+              and re.search(r"write_u32\s*\(\s*0\s*\)", ser) is not None)
     if not ser_ok:
         raise ExtractError("binary.rs write_function: cache-stripping shape not recognised")
-    # REPL: run_with_vm_and_opt builds its compiler with with_modules_and_globals, which starts slots at 0
+    # ---- REPL: run_with_vm_and_opt builds its compiler with a constructor that starts slots at 0
     repl = strip_comments(rd("driver/src/api/repl.rs"))
     cons = strip_comments(rd("backend/src/compiler/constructors.rs"))
-    if "Compiler::with_modules_and_globals" not in repl:
-        raise ExtractError("repl.rs no longer builds its compiler with with_modules_and_globals")
-    body = fn_body(cons, "with_modules_and_globals")
+    mc = re.search(r"Compiler\s*::\s*(\w+)\s*\(", repl)
+    if not mc:
+        raise ExtractError("repl.rs: construction of the Compiler not found")
+    body = fn_body(cons, mc.group(1))
     m = re.search(r"next_call_site_slot\s*:\s*([0-9]+)\s*,", body)
     restarts = bool(m) and int(m.group(1)) == 0
-    out = [HEADER.format(src="bytecode/src/bytecode/opcode.rs, runtime/src/vm/{core.rs,globals/access.rs,dispatch/ops/*.inc}, "
+    out = [HEADER.format(src="bytecode/src/bytecode/opcode.rs, runtime/src/**, "
                              "bytecode/src/asm/binary.rs, backend/src/compiler/constructors.rs, driver/src/api/repl.rs"),
-           "From Coq Require Import NArith.\n",
-           f"Definition OP_CALL_GLOBAL : N := {ops['CallGlobal']}%N.\n",
-           f"Definition OP_CALL_GLOBAL_MONO : N := {ops['CallGlobalMono']}%N.\n",
-           f"Definition OP_CALL_GLOBAL_NATIVE : N := {ops['CallGlobalNative']}%N.\n",
+           "From Coq Require Import NArith List.\nImport ListNotations.\n",
+           f"Definition OP_CALL_GLOBAL : N := {O77}%N.\n",
+           f"Definition OP_CALL_GLOBAL_MONO : N := {O78}%N.\n",
+           f"Definition OP_CALL_GLOBAL_NATIVE : N := {O104}%N.\n",
            f"Definition MAX_FRAMES : N := {lim['MAX_FRAMES'][0]}%N.\n",
            f"Definition MAX_CALL_SITE_SLOTS : N := {lim['MAX_CALL_SITE_SLOTS'][0]}%N.\n",
+           "(* the access table of the VM-wide call_site_cache *)\n",
+           f"Definition CACHE_READ_OPS : list N := {coq_nlist(read_ops)}.\n",
+           f"Definition CACHE_WRITE_OPS : list N := {coq_nlist(write_ops)}.\n",
+           f"Definition CACHE_OTHER_ACCESSES : N := {len(others)}%N.   (* reads / writes outside the dispatch arms: {', '.join(others) or 'none'} *)\n",
+           f"(* cleared by: {', '.join(clearers) or 'nothing'} *)\n",
+           f"Definition PATCHES_FROM_CALL_GLOBAL : list N := {coq_nlist(patches[O77])}.\n",
+           f"Definition PATCHES_FROM_CALL_GLOBAL_MONO : list N := {coq_nlist(patches[O78])}.\n",
+           f"Definition PATCHES_FROM_CALL_GLOBAL_NATIVE : list N := {coq_nlist(patches[O104])}.\n",
            f"Definition SET_GLOBAL_CLEARS_CACHE : bool := {b(clears)}.\n",
            f"Definition MONO_FAST_PATH_VALIDATES : bool := {b(validates)}.\n",
+           f"Definition CACHE_FILLS_RECORD_OWNER : bool := {b(fills_owner)}.\n",
            f"Definition REPL_SLOT_COUNTER_RESTARTS : bool := {b(restarts)}.\n",
            f"Definition NATIVE_SITE_FOLLOWS_REBINDING : bool := {b(native_follows)}.\n"]
     return write_if_changed("CallCacheConsts.v", "".join(out))
